@@ -32,6 +32,9 @@ type setEdit struct {
 	Kind   string   `json:"kind"` // comm | prefix
 	Remove []string `json:"remove,omitempty"`
 	Add    []string `json:"add,omitempty"`
+	// Replace: the edit is applied as ONE AddDefinedSet(replace=true) carrying the final members
+	Replace bool     `json:"replace,omitempty"`
+	Final   []string `json:"final,omitempty"`
 }
 
 // resetEditedPolicies: variant B (fresh evaluation) creates the sets with their FINAL members.
@@ -64,6 +67,16 @@ func resetEditedPolicies(sc *Script) []PolicyCfg {
 		out[i] = p
 	}
 	return out
+}
+
+func stringsWithout(l []string, rm []string) []string {
+	var r []string
+	for _, x := range l {
+		if !hasString(rm, x) {
+			r = append(r, x)
+		}
+	}
+	return r
 }
 
 func init() {
@@ -168,7 +181,12 @@ func genReset(seed uint64, tier, mode string) *Script {
 		ed := &setEdit{Policy: name}
 		if g.p(50) {
 			ed.Kind = "comm"
-			pats := []string{"^65000:1$", "^65000:2$", "^65000:3$"}
+			// every pattern form gobgp compiles differently: exact value, per-AS bitmap, any-AS
+			// bitmap and the general regular expression
+			patFor := func(k int) string {
+				return fmt.Sprintf(pick(g, []string{"^65000:%d$", "^65000:%d$", "^65000:[%d]$", "^\\d+:%d$", "^6500[0-9]:%d$", "^(65000|64999):%d$"}), k)
+			}
+			pats := []string{patFor(1), patFor(2), patFor(3)}
 			p.Comm, p.Comms = pats[0], pats[1:1+g.n(2)]
 			if g.p(60) {
 				ed.Remove = []string{pick(g, append([]string{p.Comm}, p.Comms...))}
@@ -191,6 +209,14 @@ func genReset(seed uint64, tier, mode string) *Script {
 			}
 			if p.Action == "accept" {
 				p.SetLP = 300
+			}
+		}
+		if g.p(30) {
+			ed.Replace = true
+			if ed.Kind == "prefix" {
+				ed.Final = append(stringsWithout(p.Prefixes, ed.Remove), ed.Add...)
+			} else {
+				ed.Final = append(stringsWithout(append([]string{p.Comm}, p.Comms...), ed.Remove), ed.Add...)
 			}
 		}
 		sc.Policies = append(sc.Policies, p)
